@@ -127,7 +127,9 @@ func (em Extensions) Get(k cbc.Key) cbc.Code {
 // Has returns true if the code map has values for all the provided keys.
 func (em Extensions) Has(keys ...cbc.Key) bool {
 	for _, k := range keys {
-		if _, ok := em[k]; !ok {
+		// an entry without a value is removed when the extensions are cleaned:
+		// it is not there
+		if v, ok := em[k]; !ok || v == "" {
 			return false
 		}
 	}
